@@ -48,7 +48,7 @@ def run_one(sid, only_props=None, result_name="result.json"):
         res["demo_patched"] = "PASS" if rc == 0 else "FAIL"
         outdir = os.path.join(tmp, "_verif_out")
         os.makedirs(outdir)
-        env2 = dict(os.environ, PYVC_REPO=tmp, PYVC_OUT=outdir, PYVC_JOBS=os.environ.get("SEEDED_JOBS", "6"))
+        env2 = dict(os.environ, PYVC_REPO=tmp, PYVC_OUT=outdir, PYVC_SWEEP_CACHE=os.path.join(outdir, ".sweep_cache"), PYVC_JOBS=os.environ.get("SEEDED_JOBS", "6"))
         det = {}
         for p in (only_props or PROPS):
             rc, out = sh(f"./check {p}", cwd=CHECK_DIR, env=env2, timeout=1800)
